@@ -152,6 +152,18 @@ def _run_job(job):
     except BaseException as e:  # noqa
         if isinstance(e, KeyboardInterrupt):
             raise
+        if type(e).__name__ == "HarnessError" and "path budget exceeded" in str(e):
+            # the program has more feasible paths than the job's budget: not explored to the end -> inconclusive, like a timeout
+            r = {"timed_out": True, "id": job.get("id") if isinstance(job, dict) else None, "status": "timeout", "violations": [],
+                 "detail": str(e), "inconclusive": 1, "obligations": 1, "path_budget": True}
+            r["_job"] = r["id"]
+            r["_t"] = round(time.time() - t0, 3)
+            r["_fn"] = _WORKER_FN_PATH
+            try:
+                signal.alarm(0)
+            except (ValueError, OSError):
+                pass
+            return r
         r = {"harness_error": "%s: %s" % (type(e).__name__, e), "trace": traceback.format_exc()[-2000:]}
     finally:
         try:
